@@ -1,4 +1,37 @@
-From KD Require Import C04.Model C04.Spec.
-(* placeholder until Proofs.v exists *)
-Theorem placeholder_C06 : True. Proof. exact I. Qed.
-Print Assumptions placeholder_C06.
+(* Property C06 — resuming the interleaved scheduler yields the suffix of the
+   uninterrupted run.  Theorems only. *)
+From Coq Require Import ZArith List Bool.
+Import ListNotations.
+From KD Require Import C04.Model C04.Spec C04.Lists C04.Arith C04.Proofs C04.Corollaries C04.Example.
+Open Scope Z_scope.
+
+(* the constructor accepts exactly the checkpoints on epoch boundaries (explicit
+   NotImplemented otherwise) and derives the epoch / update / sample counters the
+   uninterrupted run has there *)
+Theorem c06_constructor_checkpoint : forall c mi, WF c mi -> forall a,
+  init_checkpoint c a = spec_start c a.
+Proof. exact init_checkpoint_spec. Qed.
+Print Assumptions c06_constructor_checkpoint.
+
+(* for every checkpoint k epochs after e0 that lies before the budget (no epoch
+   in between reaches it), the uninterrupted run is the k whole epochs followed
+   by exactly the resumed run — same indices, same announced epoch numbers, same
+   passes, same stopping point *)
+Theorem c06_resume_is_suffix : forall c mi, WF c mi -> forall k e0 n, no_hit_in c mi e0 k ->
+  run c mi (k + n) (start_state c e0) =
+  option_map (app (epochs_events c mi e0 k)) (run c mi n (start_state c (e0 + Z.of_nat k))).
+Proof. exact resume_is_suffix. Qed.
+Print Assumptions c06_resume_is_suffix.
+
+(* start_epoch = e gives exactly the state resume_is_suffix is about *)
+Theorem c06_start_epoch_state : forall c e,
+  init_checkpoint c (StartEpoch e) = Start e (upe c * e) (spe c * e).
+Proof. reflexivity. Qed.
+Print Assumptions c06_start_epoch_state.
+
+Example c06_premises_satisfiable : WF ex_cfg ex_iter /\ no_hit_in ex_cfg ex_iter 0 1.
+Proof. split; [exact ex_wf|]. vm_compute. auto. Qed.
+Example c06_example :
+  run ex_cfg ex_iter 3 (start_state ex_cfg 0) =
+  option_map (app (epochs_events ex_cfg ex_iter 0 1)) (run ex_cfg ex_iter 2 (start_state ex_cfg 1)).
+Proof. vm_compute. reflexivity. Qed.
